@@ -16,7 +16,8 @@ EXPLANATION = ("Thread-context life cycle. R1: the dead-context counter (increme
                "C03.R5), and the clean-up runs on the idle path of the poll, after each flush request and at the end of the exit "
                "drain. R4: shrink() publishes a fresh, smaller node like growth does (C02.R2/R4 applied to it); the reported capacity "
                "of an unbounded queue is read on the producer side; the backend requests a transit-buffer shrink exactly when the "
-               "new node is smaller, and try_shrink replaces storage only when the buffer is empty, resetting positions and mask.")
+               "new node is smaller, and try_shrink replaces storage only when the buffer is empty, resetting positions and mask."
+               ' R6a: stored backtrace records own their data. R6b: the mapping a queue is given is mapped whole and returned whole (header slots agree between _alloc_aligned and _free_aligned).')
 NOT_DECIDED = ("'retained contexts = live threads' as a count for all schedules; that statements are not lost across a shrink as "
                "behaviour (C02/C03).")
 ASSUMPTIONS = ["each registered context owns a mapped queue, so 2^32 simultaneously dead contexts cannot exist"]
@@ -34,6 +35,7 @@ def run(ctx):
         r5(ctx, facts, cfg)
         registry_walks(ctx, facts, cfg)
         r6_outlives_the_thread(ctx, facts, cfg)
+        r7_queue_released(ctx, facts, cfg)
         # what 'its queue is empty' means for a context about to be reclaimed
         from rules import c02
         bn = {m.base: m for m in facts.fns if m.config == cfg and m.cls == c02.CLS and not m.rec.get("ctor") and not m.rec.get("dtor")}
@@ -466,3 +468,46 @@ def mapping_agreement(ctx, facts, cfg, rule):
                "every mmap call asks for the same length, the one variable stored in the header slot (%s bytes before the block) that _free_aligned reads "
                "its munmap length from (%s); the offset to the mapping's start is stored and read back at its own slot (%s / %s)"
                % (w_slot, r_slot, [k for k, v in wo], ro_slot), fn=a)
+
+
+def r7_queue_released(ctx, facts, cfg):
+    """R7: when a context is reclaimed its queue gives everything back: ~UnboundedSPSCQueue walks from the consumer's node along `next`
+    until the end, takes the successor *before* it deletes a node, and deletes every node it visits; ~BoundedSPSCQueueImpl hands its
+    storage to _free_aligned."""
+    ds = [f for f in facts.fns if f.config == cfg and f.rec.get("dtor") and f.cls == "quill::detail::UnboundedSPSCQueue"]
+    if not ds:
+        raise AnalysisBroken("~UnboundedSPSCQueue not found")
+    f = ds[0]
+    g = f.g
+    inits = f.var_inits()
+    cur = [v for v, i in inits.items() if isnode(i) and is_this_field(strip(i, casts=True), "_consumer")]
+    loops = [n for n in f.walk() if n["k"] in ("WhileStmt", "ForStmt")]
+    ok = len(cur) == 1 and len(loops) == 1
+    if ok:
+        lp = loops[0]
+        from rules.common import eq_kind
+        k = eq_kind(lp.get("cond")) if lp.get("cond") is not None else None
+        core, neg = core_and_neg(lp.get("cond"))
+        while_nonnull = (k is not None and k[0] == "!=" and any(var_ref(strip(s_, casts=True)) == cur[0] for s_ in k[1:]) and any(is_null(s_) for s_ in k[1:])) or \
+            (var_ref(strip(core, casts=True)) == cur[0] and not neg)
+        dels = [x for x in walk(lp.get("body")) if x["k"] == "CXXDeleteExpr"]
+        adv = [x for x in walk(lp.get("body")) if x["k"] == "BinaryOperator" and x["op"] == "=" and var_ref(x["lhs"]) == cur[0] and
+               any(y["k"] == "MemberExpr" and y.get("mname") == "next" for y in walk(x["rhs"]))]
+        # what is deleted is the node that was current at the top of the iteration (held in a local before the advance)
+        held = [d["did"] for x in walk(lp.get("body")) if x["k"] == "DeclStmt" for d in x.get("decls") or [] if isnode(d.get("init")) and var_ref(strip(d["init"], casts=True)) == cur[0]]
+        del_ok = len(dels) == 1 and (var_ref(strip(dels[0].get("arg") or dels[0].get("sub") or (dels[0].get("c") or [None])[0], casts=True)) in held)
+        dp, ap = npos(f, dels), npos(f, adv)
+        early = [x for x in walk(lp.get("body")) if x["k"] in ("BreakStmt", "ReturnStmt", "ContinueStmt")]
+        head = g.positions(lp.get("cond")) or []
+        ok = while_nonnull and del_ok and len(adv) == 1 and not early and bool(head) and not g.exists_path(dp, ap, avoid_nodes=head) and \
+            all(any(var_ref(strip(y.get("base"), casts=True)) == cur[0] for y in walk(a_["rhs"]) if y["k"] == "MemberExpr" and y.get("mname") == "next") for a_ in adv)
+    ctx.ob("C20.R7a", "UnboundedSPSCQueue::~UnboundedSPSCQueue:frees-every-node", ok,
+           "starting at the consumer's node the destructor continues while the node is not null, reads the node's successor before deleting "
+           "the node, and deletes every node it visits (no early exit)", fn=f)
+    bd = [f_ for f_ in facts.fns if f_.config == cfg and f_.rec.get("dtor") and short(f_.cls or "") == "quill::detail::BoundedSPSCQueueImpl"]
+    for f_ in bd[:2]:
+        fr = f_.calls(r"BoundedSPSCQueueImpl<.*>::_free_aligned$")
+        ok_b = len(fr) == 1 and is_this_field(strip(fr[0]["args"][0], casts=True), "_storage") and \
+            not f_.g.exists_path([f_.g.entry_node], [f_.g.exit_node], avoid_nodes=npos(f_, fr))
+        ctx.ob("C20.R7b", "%s::~BoundedSPSCQueueImpl:returns-storage" % f_.cls.replace("quill::detail::", ""), ok_b,
+               "the destructor hands _storage to _free_aligned on every path", fn=f_)
